@@ -209,6 +209,14 @@ class ModelProcessPool(_ModelPool):
         parent = (np.random.get_state(), _stdrandom.getstate())
         np.random.set_state(self.wstate[w][0])
         _stdrandom.setstate(self.wstate[w][1])
+        # a worker is another process: its own identity and pid (code that derives per-worker seeds reads them)
+        import multiprocessing as _mp
+        import os as _os
+        proc = _mp.current_process()
+        saved_ident, saved_getpid = proc._identity, _os.getpid
+        proc._identity = tuple(saved_ident) + (w + 1,)
+        real_pid = saved_getpid()
+        _os.getpid = lambda: real_pid + 100000 * (w + 1)
         try:
             try:
                 if not self.wstarted[w]:
@@ -225,6 +233,8 @@ class ModelProcessPool(_ModelPool):
             except BaseException as e:   # noqa
                 f.exc = e
         finally:
+            proc._identity = saved_ident
+            _os.getpid = saved_getpid
             self.wstate[w] = (np.random.get_state(), _stdrandom.getstate())
             np.random.set_state(parent[0])
             _stdrandom.setstate(parent[1])
